@@ -72,6 +72,8 @@ class C03(PropBase):
             out.append(self.gen_priced(rng))
         for _ in range(per):
             out.append(self.gen_inexact(rng))
+        for _ in range(per):
+            out.append(self.gen_far_dates(rng))
         n = 1500 if quick else 40000
         for _ in range(n):
             out.append(self.gen_random(rng))
@@ -160,6 +162,31 @@ class C03(PropBase):
             other = common.gen_ts(rng, cfg)
             txns.append(self.simple_txn(rng, other, [("a", "1")], rng.choice(codes), rng.choice(descs), None, ""))
         return self.mk(rng, cfg, txns, kind, self.pick_names(rng, txns, 0.3))
+
+    FAR_YEARS = [1001, 1500, 1676, 1677, 1678, 1900, 1969, 2024, 2261, 2262, 2263, 2500, 9998]
+
+    def gen_far_dates(self, rng):
+        """instants far from the present, on both sides of the range a signed 64-bit count of nanoseconds since 1970 can
+        hold (1677-09-21 .. 2262-04-11), mixed with ordinary ones: the canonical order is by instant over the whole
+        range of years the journal format accepts"""
+        cfg = {}
+        txns = []
+        for _ in range(rng.choice([2, 3, 4, 5])):
+            if rng.random() < 0.25:
+                # around the two ends of the 64-bit nanosecond range
+                text = rng.choice(["1677-09-21T00:12:43Z", "1677-09-21T00:12:44Z", "1677-09-21T00:12:43.145224191Z",
+                                   "1677-09-21T00:12:43.145224193Z", "2262-04-11T23:47:16Z", "2262-04-11T23:47:17Z",
+                                   "2262-04-11T23:47:16.854775807Z", "2262-04-11T23:47:16.854775808Z"])
+                y, mo, d = int(text[0:4]), int(text[5:7]), int(text[8:10])
+                h, mi, sec = int(text[11:13]), int(text[14:16]), int(text[17:19])
+                frac = text[20:-1] if "." in text else ""
+                ns = common.civil_to_ns(y, mo, d, h, mi, sec, int((frac + "000000000")[:9]) if frac else 0, 0)
+                ts = {"ns": str(ns), "off": 0, "text": text}
+            else:
+                ts = common.gen_ts(rng, cfg, base_year=rng.choice(self.FAR_YEARS))
+            txns.append(self.simple_txn(rng, ts, [(rng.choice(["a", "a:b", "b"]), common.gen_amount_text(rng))], comm=""))
+        txns.append(self.simple_txn(rng, common.gen_ts(rng, cfg), [("a", "1")], comm=""))
+        return self.mk(rng, cfg, txns, "far-dates", self.pick_names(rng, txns, 0.3))
 
     def same_instant_other_offset(self, rng, ts):
         """re-render the instant `ts` with another UTC offset (text changes, instant does not)"""
